@@ -6,6 +6,10 @@ Models: `Model/Schema/Parse.lean` is `parser/grammar.pest` as the PEG pest execu
 formatter on every run (canonical AST dump and formatted text of generated and damaged sources).
 
 Proved here, for all inputs:
+* `formatting_a_parsed_schema` — the property for the models with no premise on the schema: for EVERY source text the
+  grammar accepts, the formatted text of its AST reads back as the canonical form of that AST and formatting that
+  again changes nothing. It combines `parsed_schemas_are_well_formed` (every AST the parser model returns is
+  `ValidSchema`; one lemma per grammar rule) with the next two theorems;
 * `format_parses_back` — for every schema AST that is well formed (`ValidSchema`: identifiers and literals of the shape
   the grammar matches, one-line comment texts, schema comments only together with schema docs, no type reference
   whose first identifier starts with a parameterless type keyword) the formatted text parses, with the PEG of
@@ -26,15 +30,16 @@ Proved here, for all inputs:
 * `comment_line_roundtrip`, `doc_line_roundtrip`, `inline_doc_line_roundtrip` — a written comment / doc line is
   read back as one line of the same kind (never as another kind), and `line_inner_stable`: its inner text is
   the one that was written, so writing it again gives the same line (idempotence of line formatting).
-Not theorems (tied by the correspondence runs and the implementation-only oracles): that every AST the parser
-produces is `ValidSchema`; that the fuel `parseSchema` uses (input length + 2) is at least `schemaFuel`; the
-validator (equal errors and warnings).
+Not theorems (tied by the correspondence runs and the implementation-only oracles): that the fuel `parseSchema`
+uses (input length + 2) is at least `schemaFuel` of what it returns (fuel only bounds the nesting the model follows;
+evaluated on every input by the `sval` lines); the validator (equal errors and warnings).
 -/
 import Aldrin.Lemmas.Schema.Types
 import Aldrin.Lemmas.Schema.Lines
 import Aldrin.Lemmas.Schema.Schema
 import Aldrin.Lemmas.Schema.ValidSound
 import Aldrin.Lemmas.Schema.Idem
+import Aldrin.Lemmas.Schema.ParseValid
 
 namespace Aldrin.Schema
 
@@ -43,6 +48,19 @@ in canonical form, imports in the formatter's order, everything else identical. 
 theorem format_parses_back (s : Schema) (hv : ValidSchema s) (fuel : Nat) (hf : schemaFuel s ≤ fuel) :
     fileP fuel (format s) = some (canonSchema s) :=
   fileP_format s hv fuel hf
+
+/-- Everything the grammar accepts is well formed: the premise of `format_parses_back` holds for every AST that
+comes from a source text (60 lemmas, one per rule of the grammar model, `Lemmas/Schema/ParseValid.lean`). -/
+theorem parsed_schemas_are_well_formed (src : Str) (s : Schema) (h : parseSchema src = some s) : ValidSchema s :=
+  parseSchema_valid h
+
+/-- The property for the model, without a premise on the schema: whatever source the grammar accepts, the text the
+formatter writes for its AST reads back (given fuel for the nesting of that AST) as the canonical form of the same
+AST - same definitions in the same order, names, ids, types, attributes, comments and docs, imports sorted -, and
+formatting what was read back changes nothing. -/
+theorem formatting_a_parsed_schema (src : Str) (s : Schema) (h : parseSchema src = some s) :
+    fileP (schemaFuel s) (format s) = some (canonSchema s) ∧ format (canonSchema s) = format s :=
+  ⟨fileP_format s (parseSchema_valid h) _ (Nat.le_refl _), format_canon s⟩
 
 /-- The same with the executable well-formedness check (`Model/Schema/Valid.lean`), which the driver evaluates on
 every AST the model parser produces in the correspondence runs. -/
